@@ -13,7 +13,6 @@ structure AGeo where
   nk : Nat
   P : List UInt32 → Nat → W4 → W4
   hspec : PermCallSpec prog pidx nk P
-  mem0 : Array Block
   bs : Nat
   baseS : Nat
   ent0 : List Delivery
@@ -24,13 +23,13 @@ structure AGeo where
 /-- the state words as a list -/
 def sw (s : W4) : List UInt32 := [s.a, s.b, s.c, s.d]
 
-structure AI (g : AGeo) (nv : Nat) (env : Env) (st : St) (s : W4) (kws : List UInt32) : Prop where
+structure AI (g : AGeo) (M : Array Block) (nv : Nat) (env : Env) (st : St) (s : W4) (kws : List UInt32) : Prop where
   esz : env.size = nv
   e0 : env[0]? = some (mkPtr g.bs g.baseS, .pub)
   klen : kws.length = g.nk
   obj : ∃ X, st.mem[g.bs]? = some ⟨X, g.baseS⟩ ∧ X.size = 16 + 4 * g.nk ∧ WordsV X (sw s ++ kws)
-  oth : OthLe g.bs st.mem g.mem0
-  msz : st.mem.size = g.mem0.size
+  oth : OthLe g.bs st.mem M
+  msz : st.mem.size = M.size
   ent : st.ent = g.ent0
 
 def addrS (i : Nat) : Expr := if i = 0 then .var 0 else .bin .add .u64 (.var 0) (.lit (4 * i))
@@ -65,11 +64,11 @@ theorem sw_get (s : W4) (i : Nat) (hi : i < 4) (kws : List UInt32) : (sw s ++ kw
   | 3, _ => rfl
 
 /-- `p = &state->s[i]; x = *p; *p = x ^ E` -/
-theorem ai_xor {g : AGeo} {nv : Nat} {env : Env} {st : St} {s : W4} {kws : List UInt32} (ai : AI g nv env st s kws) (i t x : Nat) (E : Expr) (c : UInt32)
+theorem ai_xor {g : AGeo} {M : Array Block} {nv : Nat} {env : Env} {st : St} {s : W4} {kws : List UInt32} (ai : AI g M nv env st s kws) (i t x : Nat) (E : Expr) (c : UInt32)
     (hi : i < 4) (ht : 1 ≤ t ∧ t < nv) (hx : 1 ≤ x ∧ x < nv) (htx : t ≠ x)
     (hE : ∀ e' : Env, (∀ y, y ≠ t → y ≠ x → e'[y]? = env[y]?) → EvalD e' E c.toNat)
     {Q : Sig → Env → St → Prop}
-    (hQ : ∀ e' s', e'.size = nv → (∀ y, y ≠ t → y ≠ x → e'[y]? = env[y]?) → AI g nv e' s' (setW s i ((sw s).getD i 0 ^^^ c)) kws → Q .normal e' s') :
+    (hQ : ∀ e' s', e'.size = nv → (∀ y, y ≠ t → y ≠ x → e'[y]? = env[y]?) → AI g M nv e' s' (setW s i ((sw s).getD i 0 ^^^ c)) kws → Q .normal e' s') :
     RunsTo g.prog (seqs [.assign t (addrS i), .load x .u32 (.var t), .store .u32 (.var t) (.bin .bxor .u32 (.var x) E)]) env st Q := by
   obtain ⟨X, hm, hXs, hw⟩ := ai.obj
   have hlt := g.hlt
@@ -121,9 +120,9 @@ theorem envLe_has {e e' : Env} (h : EnvLe e' e) {x v : Nat} (hx : EnvHas e x v) 
     exact ⟨l', he, fun hu => by have := hi.2; simp only [hu] at this; cases l <;> first | exact absurd rfl hl | exact this.elim⟩
 
 /-- the permutation call on the state object -/
-theorem ai_perm {g : AGeo} {nv : Nat} {env : Env} {st : St} {s : W4} {kws : List UInt32} (ai : AI g nv env st s kws) (er : Expr) (r : Nat)
+theorem ai_perm {g : AGeo} {M : Array Block} {nv : Nat} {env : Env} {st : St} {s : W4} {kws : List UInt32} (ai : AI g M nv env st s kws) (er : Expr) (r : Nat)
     (hr : r < 4294967296) (her : evalE env er = .ok (r, .pub))
-    {Q : Sig → Env → St → Prop} (hQ : ∀ e' s', EnvLe e' env → AI g nv e' s' (g.P kws r s) kws → Q .normal e' s') :
+    {Q : Sig → Env → St → Prop} (hQ : ∀ e' s', EnvLe e' env → AI g M nv e' s' (g.P kws r s) kws → Q .normal e' s') :
     RunsTo g.prog (.call none g.pidx [.var 0, er]) env st Q := by
   obtain ⟨X, hm, hXs, hw⟩ := ai.obj
   refine (g.hspec env st (.var 0) er r g.bs g.baseS X s kws ai.klen hr (by simp only [evalE, ai.e0, reduceCtorEq, if_false]) her hm g.hal
@@ -134,8 +133,8 @@ theorem ai_perm {g : AGeo} {nv : Nat} {env : Env} {st : St} {s : W4} {kws : List
     hoth.trans ai.oth, by rw [hmsz]; exact ai.msz, by rw [hent]; exact ai.ent⟩
 
 /-- a data block somewhere else in memory: the bytes it held initially are still readable (with defined labels) -/
-theorem data_block {g : AGeo} {nv : Nat} {env : Env} {st : St} {s : W4} {kws : List UInt32} (ai : AI g nv env st s kws) (bd : Nat) (hne : bd ≠ g.bs)
-    (XD : Array LByte) (based off : Nat) (data : Bytes) (h0 : g.mem0[bd]? = some ⟨XD, based⟩) (hd : BytesV XD off data) :
+theorem data_block {g : AGeo} {M : Array Block} {nv : Nat} {env : Env} {st : St} {s : W4} {kws : List UInt32} (ai : AI g M nv env st s kws) (bd : Nat) (hne : bd ≠ g.bs)
+    (XD : Array LByte) (based off : Nat) (data : Bytes) (h0 : M[bd]? = some ⟨XD, based⟩) (hd : BytesV XD off data) :
     ∃ XD', st.mem[bd]? = some ⟨XD', based⟩ ∧ XD'.size = XD.size ∧ BytesV XD' off data := by
   have hrel := ai.oth bd hne
   rw [h0] at hrel
@@ -228,11 +227,11 @@ theorem runs_loads {prog : Program} (bd based off : Nat) (XD : Array LByte) (dat
         · exact hhas yo h
 
 /-- `x = *p; *p = x ^ E` where variable `t` already holds `p = &state->s[i]` -/
-theorem ai_xor_tail {g : AGeo} {nv : Nat} {env : Env} {st : St} {s : W4} {kws : List UInt32} (ai : AI g nv env st s kws) (i t x : Nat) (E : Expr) (c : UInt32)
+theorem ai_xor_tail {g : AGeo} {M : Array Block} {nv : Nat} {env : Env} {st : St} {s : W4} {kws : List UInt32} (ai : AI g M nv env st s kws) (i t x : Nat) (E : Expr) (c : UInt32)
     (hi : i < 4) (ht : 1 ≤ t ∧ t < nv) (hx : 1 ≤ x ∧ x < nv) (htx : t ≠ x) (het : env[t]? = some (mkPtr g.bs (g.baseS + 4 * i), .pub))
     (hE : ∀ e' : Env, (∀ y, y ≠ x → e'[y]? = env[y]?) → EvalD e' E c.toNat)
     {Q : Sig → Env → St → Prop}
-    (hQ : ∀ e' s', e'.size = nv → (∀ y, y ≠ x → e'[y]? = env[y]?) → AI g nv e' s' (setW s i ((sw s).getD i 0 ^^^ c)) kws → Q .normal e' s') :
+    (hQ : ∀ e' s', e'.size = nv → (∀ y, y ≠ x → e'[y]? = env[y]?) → AI g M nv e' s' (setW s i ((sw s).getD i 0 ^^^ c)) kws → Q .normal e' s') :
     RunsTo g.prog (seqs [.load x .u32 (.var t), .store .u32 (.var t) (.bin .bxor .u32 (.var x) E)]) env st Q := by
   obtain ⟨X, hm, hXs, hw⟩ := ai.obj
   have hlt := g.hlt
@@ -264,17 +263,17 @@ theorem ai_xor_tail {g : AGeo} {nv : Nat} {env : Env} {st : St} {s : W4} {kws : 
     · show (setBlock st.mem g.bs _).size = _; rw [size_setBlock']; exact ai.msz
 
 /-- where the data a function reads lies -/
-structure DGeo (g : AGeo) where
+structure DGeo (g : AGeo) (M : Array Block) where
   bd : Nat
   based : Nat
   XD : Array LByte
   hne : bd ≠ g.bs
   hbd30 : bd < 2 ^ 30
   hlt : based + XD.size < ptrBase
-  h0 : g.mem0[bd]? = some ⟨XD, based⟩
+  h0 : M[bd]? = some ⟨XD, based⟩
 
 /-- `p = &state->s[i]; y_1 = data[o_1]; …; x = *p; *p = x ^ E(y_1, …)` -/
-theorem ai_xor_data {g : AGeo} (dg : DGeo g) {nv : Nat} {env : Env} {st : St} {s : W4} {kws : List UInt32} (ai : AI g nv env st s kws)
+theorem ai_xor_data {g : AGeo} {M : Array Block} (dg : DGeo g M) {nv : Nat} {env : Env} {st : St} {s : W4} {kws : List UInt32} (ai : AI g M nv env st s kws)
     (off : Nat) (dat : Bytes) (hd : BytesV dg.XD off dat) (he1 : env[1]? = some (mkPtr dg.bd (dg.based + off), .pub))
     (i t x : Nat) (loads : List (Nat × Nat)) (E : Expr) (c : UInt32)
     (hi : i < 4) (ht : 2 ≤ t ∧ t < nv) (hx : 2 ≤ x ∧ x < nv) (htx : t ≠ x) (hl0 : loads ≠ [])
@@ -282,7 +281,7 @@ theorem ai_xor_data {g : AGeo} (dg : DGeo g) {nv : Nat} {env : Env} {st : St} {s
     (hE : ∀ e' : Env, (∀ yo ∈ loads, EnvHas e' yo.1 (dat.getD yo.2 0).toNat) → EvalD e' E c.toNat)
     {Q : Sig → Env → St → Prop}
     (hQ : ∀ e' s', e'.size = nv → (∀ y, y ≠ t → y ≠ x → y ∉ loads.map Prod.fst → e'[y]? = env[y]?) →
-      AI g nv e' s' (setW s i ((sw s).getD i 0 ^^^ c)) kws → Q .normal e' s') :
+      AI g M nv e' s' (setW s i ((sw s).getD i 0 ^^^ c)) kws → Q .normal e' s') :
     RunsTo g.prog (seqs (.assign t (addrS i) :: (loadsOf loads ++ [.load x .u32 (.var t), .store .u32 (.var t) (.bin .bxor .u32 (.var x) E)]))) env st Q := by
   have hes := ai.esz
   obtain ⟨yo0, rest0, hl⟩ : ∃ yo0 rest0, loads = yo0 :: rest0 := by
@@ -294,7 +293,7 @@ theorem ai_xor_data {g : AGeo} (dg : DGeo g) {nv : Nat} {env : Env} {st : St} {s
     rw [hl]; rfl
   rw [hne, seqs_cons2, ← hne]
   let E1 := setVar env t (mkPtr g.bs (g.baseS + 4 * i), Lab.pub)
-  have ai1 : AI g nv (setVar env t (mkPtr g.bs (g.baseS + 4 * i), Lab.pub)) st s kws :=
+  have ai1 : AI g M nv (setVar env t (mkPtr g.bs (g.baseS + 4 * i), Lab.pub)) st s kws :=
     ⟨by rw [size_setVar]; exact hes, by rw [get_set_ne _ _ _ _ (by omega)]; exact ai.e0, ai.klen, ai.obj, ai.oth, ai.msz, ai.ent⟩
   refine runs_seq (Q := fun e s' => e = setVar env t (mkPtr g.bs (g.baseS + 4 * i), Lab.pub) ∧ s' = st) (runs_assign _ (evalE_addrS g i hi ai.e0) ⟨rfl, rfl, rfl⟩) ?_
   intro e s' ⟨he, hs⟩; rw [he, hs]
@@ -307,7 +306,7 @@ theorem ai_xor_data {g : AGeo} (dg : DGeo g) {nv : Nat} {env : Env} {st : St} {s
     intro sig e' s' ⟨h1, h2, h3, h4, h5, h6⟩
     exact ⟨h1, by rw [h2, size_setVar]; exact hes, h3, h4, h5, h6⟩
   · intro e' s' ⟨hsz, hmm, hent, hfr, hhas⟩
-    have ai2 : AI g nv e' s' s kws :=
+    have ai2 : AI g M nv e' s' s kws :=
       ⟨hsz, by rw [hfr 0 (fun h => by obtain ⟨yo, hyo, hy0⟩ := List.mem_map.mp h; have := (hall yo hyo).1; omega)]; exact ai1.e0, ai.klen,
        by rw [hmm]; exact ai.obj, by rw [hmm]; exact ai.oth, by rw [hmm]; exact ai.msz, by rw [hent]; exact ai.ent⟩
     have htn : t ∉ loads.map Prod.fst := fun h => by obtain ⟨yo, hyo, hy0⟩ := List.mem_map.mp h; exact (hall yo hyo).2.2.1 hy0
